@@ -7,10 +7,15 @@
     [not_instantiated] say what the result graph's queries must answer).
 
     plug.rs works EXPORT-first (for every plug export: the import of exactly that name, else the first
-    semver-compatible import).  The two readings agree under two hypotheses, and only under them:
+    semver-compatible import; then one pair per socket import, exact name preferred -- repair 7db12e7).
+    The two readings agree under ONE hypothesis, and only under it:
 
-      [socket_tracks_distinct]  the socket imports no two names on one semver track;
-      [plug_tracks_distinct]    no plug exports two names on one semver track.
+      [socket_tracks_distinct]  the socket imports no two names on one semver track.
+
+    Before repair 7db12e7 a second hypothesis was needed (no plug exports two names on one track): a
+    single plug exporting a:b/c@0.2.0 and a:b/c@0.2.1 into a socket importing a:b/c@0.2.0 collided with
+    itself (ArgumentAlreadyPassed).  With the per-import dedupe modelled in [plug_pairs] the theorems no
+    longer need it; [pre_repair_pairs_collided] records the historical witness.
 
     FINDINGS (each [_refuted] theorem is a concrete case, replayed on the real [wac_graph::plug] by the
     correspondence, corpus/C10/cases.txt):
@@ -20,8 +25,6 @@
       - socket imports a:b/c@0.2.0 (incompatible type) and a:b/c@0.2.1 (compatible), the plug exports
         a:b/c@0.2.0: the exact-name import shadows the compatible neighbour, "no plugging happened"
         ([no_plug_iff_socket_tracks_refuted]);
-      - one plug exports a:b/c@0.2.0 and a:b/c@0.2.1, the socket imports a:b/c@0.2.0: the single plug
-        collides with itself, ArgumentAlreadyPassed ([plug_fails_only_when_ambiguous_plug_tracks_refuted]);
       - two plugs each exporting exactly one of the socket's two same-track imports: wired by exact
         name although, read import-first, both plugs offer an item for each import
         ([ambiguous_plugs_fail_socket_tracks_refuted]; a divergence of the per-plug reading only).
@@ -49,64 +52,64 @@ Section C10.
          instantiation, supplied by the alias of that plug's export; every other socket import is
          still an import of the result (and success means no import has two suppliers).
 
-      Full strength (without the two track hypotheses) is FALSE: see the refutations below. *)
+      Full strength (without the track hypothesis) is FALSE: see the refutations below. *)
   Theorem plug_supplies_spec :
-    plug_case pu s plugs socket imps sx pls -> socket_tracks_distinct pu imps -> plug_tracks_distinct pu pls ->
+    plug_case pu s plugs socket imps sx pls -> socket_tracks_distinct pu imps ->
     snd res = POk -> forall m t, In (m, t) imps ->
       match sup (m, t) with
       | [] => stays_import pu (fst res) 0 m t
       | [(k, e)] => exists p, nth_error plugs k = Some p /\ supplied_by pu (fst res) 0 m p e
       | _ => False
       end.
-  Proof. intros C H1 H2. exact (supplies_spec pu s plugs socket imps sx pls C H1 H2). Qed.
+  Proof. intros C H1. exact (supplies_spec pu s plugs socket imps sx pls C H1). Qed.
 
   (** 2. every socket export is exported under its own name *)
   Theorem plug_reexports_socket :
-    plug_case pu s plugs socket imps sx pls -> socket_tracks_distinct pu imps -> plug_tracks_distinct pu pls ->
+    plug_case pu s plugs socket imps sx pls -> socket_tracks_distinct pu imps ->
     snd res = POk -> forall x k, In (x, k) sx -> reexported pu (fst res) 0 x.
-  Proof. intros C H1 H2. exact (reexports_socket pu s plugs socket imps sx pls C H1 H2). Qed.
+  Proof. intros C H1. exact (reexports_socket pu s plugs socket imps sx pls C H1). Qed.
 
   (** 3. a plug that supplies nothing is not instantiated (no node of the result belongs to it) *)
   Theorem idle_plug_not_instantiated :
-    plug_case pu s plugs socket imps sx pls -> socket_tracks_distinct pu imps -> plug_tracks_distinct pu pls ->
+    plug_case pu s plugs socket imps sx pls -> socket_tracks_distinct pu imps ->
     snd res = POk -> forall p, p <> socket ->
       (forall k, nth_error plugs k = Some p -> forall i, In i imps -> forall e, ~ In (k, e) (sup i)) ->
       not_instantiated (fst res) p.
-  Proof. intros C H1 H2. exact (idle_not_instantiated pu s plugs socket imps sx pls C H1 H2). Qed.
+  Proof. intros C H1. exact (idle_not_instantiated pu s plugs socket imps sx pls C H1). Qed.
 
   (** 4. "no plugging happened" exactly when no socket import could be supplied *)
   Theorem no_plug_iff :
-    plug_case pu s plugs socket imps sx pls -> socket_tracks_distinct pu imps -> plug_tracks_distinct pu pls ->
+    plug_case pu s plugs socket imps sx pls -> socket_tracks_distinct pu imps ->
     (snd res = PNoPlugHappened <-> forall i, In i imps -> sup i = []).
-  Proof. intros C H1 H2. exact (no_plug_iff_ pu s plugs socket imps sx pls C H1 H2). Qed.
+  Proof. intros C H1. exact (no_plug_iff_ pu s plugs socket imps sx pls C H1). Qed.
 
   (** 5. two plugs offering for one import: the operation fails (ArgumentAlreadyPassed) ... *)
   Theorem ambiguous_plugs_fail :
-    plug_case pu s plugs socket imps sx pls -> socket_tracks_distinct pu imps -> plug_tracks_distinct pu pls ->
+    plug_case pu s plugs socket imps sx pls -> socket_tracks_distinct pu imps ->
     (exists i, In i imps /\ 2 <= length (sup i)) -> snd res = PGraphError ArgumentAlreadyPassed.
-  Proof. intros C H1 H2. exact (ambiguous_fail pu s plugs socket imps sx pls C H1 H2). Qed.
+  Proof. intros C H1. exact (ambiguous_fail pu s plugs socket imps sx pls C H1). Qed.
 
   (** ... and that is the only way it fails; in particular it never panics *)
   Theorem plug_fails_only_when_ambiguous :
-    plug_case pu s plugs socket imps sx pls -> socket_tracks_distinct pu imps -> plug_tracks_distinct pu pls ->
+    plug_case pu s plugs socket imps sx pls -> socket_tracks_distinct pu imps ->
     forall e, snd res = PGraphError e -> e = ArgumentAlreadyPassed /\ exists i, In i imps /\ 2 <= length (sup i).
-  Proof. intros C H1 H2. exact (fails_only_if_ambiguous pu s plugs socket imps sx pls C H1 H2). Qed.
+  Proof. intros C H1. exact (fails_only_if_ambiguous pu s plugs socket imps sx pls C H1). Qed.
 
   Theorem plug_never_panics :
-    plug_case pu s plugs socket imps sx pls -> socket_tracks_distinct pu imps -> plug_tracks_distinct pu pls ->
+    plug_case pu s plugs socket imps sx pls -> socket_tracks_distinct pu imps ->
     forall p, snd res <> PPanic p.
-  Proof. intros C H1 H2. exact (never_panics pu s plugs socket imps sx pls C H1 H2). Qed.
+  Proof. intros C H1. exact (never_panics pu s plugs socket imps sx pls C H1). Qed.
 
   (** 6. the outcome class is the verdict of the executable specification (the one the driver prints
          and the check evaluates on the implementation's observation) *)
   Theorem plug_agrees_with_spec_verdict :
-    plug_case pu s plugs socket imps sx pls -> socket_tracks_distinct pu imps -> plug_tracks_distinct pu pls ->
+    plug_case pu s plugs socket imps sx pls -> socket_tracks_distinct pu imps ->
     match spec_plug (pu_name_text pu) (u_sub pu) imps pls with
     | VFail => snd res = PGraphError ArgumentAlreadyPassed
     | VNoPlug => snd res = PNoPlugHappened
     | VOk _ => snd res = POk
     end.
-  Proof. intros C H1 H2. exact (agrees_with_spec_verdict pu s plugs socket imps sx pls C H1 H2). Qed.
+  Proof. intros C H1. exact (agrees_with_spec_verdict pu s plugs socket imps sx pls C H1). Qed.
 End C10.
 Print Assumptions plug_supplies_spec.
 Print Assumptions plug_reexports_socket.
@@ -117,31 +120,31 @@ Print Assumptions plug_fails_only_when_ambiguous.
 Print Assumptions plug_never_panics.
 Print Assumptions plug_agrees_with_spec_verdict.
 
-(** 7. The matching logic by itself: the pairs of plug.rs are exactly the import-first offers, each
-       direction under the hypothesis it needs. *)
-Theorem export_first_pair_is_offer : forall text sub imps exps e m,
-  tracks_distinct text (map fst exps) ->
-  In (e, m) (plug_matches text sub imps exps) -> exists t, In (m, t) imps /\ offer text sub exps (m, t) = Some e.
-Proof. exact match_is_offer. Qed.
-Print Assumptions export_first_pair_is_offer.
+(** 7. The matching logic by itself: under the socket hypothesis the pair that the (repaired) loop
+       keeps for a socket import is exactly the import-first offer; no hypothesis on the plug. *)
+Theorem kept_pair_is_the_offer : forall text sub imps exps e m t,
+  NoDup (map fst imps) -> tracks_distinct text (map fst imps) -> In (m, t) imps ->
+  (In (e, m) (plug_pairs text sub imps exps) <-> offer text sub exps (m, t) = Some e).
+Proof. exact pair_iff_offer. Qed.
+Print Assumptions kept_pair_is_the_offer.
 
-Theorem offer_is_export_first_pair : forall text sub imps exps e m t,
-  NoDup (map fst imps) -> tracks_distinct text (map fst imps) ->
-  In (m, t) imps -> offer text sub exps (m, t) = Some e -> In (e, m) (plug_matches text sub imps exps).
-Proof. exact offer_is_match. Qed.
-Print Assumptions offer_is_export_first_pair.
+(** one pair per socket import: a plug never collides with itself *)
+Theorem kept_pairs_have_distinct_targets : forall text sub imps exps,
+  NoDup (map snd (plug_pairs text sub imps exps)).
+Proof. intros. exact (proj1 (unique_pairs_spec _)). Qed.
+Print Assumptions kept_pairs_have_distinct_targets.
 
 (** 8. Without [socket_tracks_distinct] clause 1 is false: a successful plug after which an import
        that has exactly one supplier is not an argument of the socket. *)
 Theorem plug_supplies_spec_socket_tracks_refuted :
   exists pu s plugs socket imps sx pls,
-    plug_case pu s plugs socket imps sx pls /\ plug_tracks_distinct pu pls /\
+    plug_case pu s plugs socket imps sx pls /\
     snd (plug pu s plugs socket) = POk /\
     exists m t k e, In (m, t) imps /\ suppliers (pu_name_text pu) (u_sub pu) pls (m, t) = [(k, e)] /\
                     forall a, ~ In (m, a) (get_args pu (fst (plug pu s plugs socket)) 0).
 Proof.
   exists w1, (w_state w1), [w_p1], w_socket, [(0%N, 0%N); (1%N, 0%N)], [(2%N, 0%N)], [[(1%N, 0%N)]].
-  split; [exact w1_case|]. split; [exact w1_plug_tracks|]. destruct w1_diverges as (A & B & C). split; [exact A|].
+  split; [exact w1_case|]. destruct w1_diverges as (A & B & C). split; [exact A|].
   exists 0%N, 0%N, 0, 1%N. split; [left; reflexivity|]. split; [exact B|exact C].
 Qed.
 Print Assumptions plug_supplies_spec_socket_tracks_refuted.
@@ -150,12 +153,12 @@ Print Assumptions plug_supplies_spec_socket_tracks_refuted.
     compatible import on the same track; "no plugging happened" although an import has a supplier. *)
 Theorem no_plug_iff_socket_tracks_refuted :
   exists pu s plugs socket imps sx pls,
-    plug_case pu s plugs socket imps sx pls /\ plug_tracks_distinct pu pls /\
+    plug_case pu s plugs socket imps sx pls /\
     snd (plug pu s plugs socket) = PNoPlugHappened /\
     exists i, In i imps /\ suppliers (pu_name_text pu) (u_sub pu) pls i <> [].
 Proof.
   exists w2, (w_state w2), [w_p1], w_socket, [(0%N, 1%N); (1%N, 0%N)], [(2%N, 0%N)], [[(0%N, 0%N)]].
-  split; [exact w2_case|]. split; [exact w2_plug_tracks|]. destruct w2_diverges as (A & B). split; [exact A|].
+  split; [exact w2_case|]. destruct w2_diverges as (A & B). split; [exact A|].
   exists (1%N, 0%N). split; [right; left; reflexivity|]. rewrite B. discriminate.
 Qed.
 Print Assumptions no_plug_iff_socket_tracks_refuted.
@@ -163,37 +166,38 @@ Print Assumptions no_plug_iff_socket_tracks_refuted.
 (** ... and clause 5: both plugs offer for each import (read per plug), yet the plug succeeds. *)
 Theorem ambiguous_plugs_fail_socket_tracks_refuted :
   exists pu s plugs socket imps sx pls,
-    plug_case pu s plugs socket imps sx pls /\ plug_tracks_distinct pu pls /\
+    plug_case pu s plugs socket imps sx pls /\
     (exists i, In i imps /\ 2 <= length (suppliers (pu_name_text pu) (u_sub pu) pls i)) /\
     snd (plug pu s plugs socket) = POk.
 Proof.
   exists w4, (w_state w4), [w_p1; w_p2], w_socket, [(0%N, 0%N); (1%N, 0%N)], [(2%N, 0%N)], [[(0%N, 0%N)]; [(1%N, 0%N)]].
-  split; [exact w4_case|]. split; [exact w4_plug_tracks|]. destruct w4_diverges as (A & B). split; [|exact A].
+  split; [exact w4_case|]. destruct w4_diverges as (A & B). split; [|exact A].
   exists (0%N, 0%N). split; [left; reflexivity|]. rewrite B. apply le_n.
 Qed.
 Print Assumptions ambiguous_plugs_fail_socket_tracks_refuted.
 
-(** 9. Without [plug_tracks_distinct] the failure is not only the ambiguity of the property: a single
-       plug exporting two versions of one interface collides with itself. *)
-Theorem plug_fails_only_when_ambiguous_plug_tracks_refuted :
-  exists pu s plugs socket imps sx pls,
-    plug_case pu s plugs socket imps sx pls /\ socket_tracks_distinct pu imps /\
-    snd (plug pu s plugs socket) = PGraphError ArgumentAlreadyPassed /\
-    forall i, In i imps -> length (suppliers (pu_name_text pu) (u_sub pu) pls i) <= 1.
+(** 9. HISTORICAL (the algorithm before repair 7db12e7, i.e. wiring the raw pairs): one plug exporting
+       two versions of one interface produced two pairs for the one socket import -- the second
+       [set_instantiation_argument] failed with ArgumentAlreadyPassed although only one plug offers.
+       The repaired loop keeps the exact-name pair and the very same case now succeeds, in agreement
+       with the import-first reading (one supplier).  Regression: corpus case `C 2 5`. *)
+Example pre_repair_pairs_collided :
+  plug_case w3 (w_state w3) [w_p1] w_socket [(0%N, 0%N)] [(2%N, 0%N)] [[(0%N, 0%N); (1%N, 0%N)]] /\
+  plug_matches (pu_name_text w3) (u_sub w3) [(0%N, 0%N)] [(0%N, 0%N); (1%N, 0%N)] = [(0%N, 0%N); (1%N, 0%N)] /\
+  plug_pairs (pu_name_text w3) (u_sub w3) [(0%N, 0%N)] [(0%N, 0%N); (1%N, 0%N)] = [(0%N, 0%N)] /\
+  snd (plug w3 (w_state w3) [w_p1] w_socket) = POk /\
+  suppliers (pu_name_text w3) (u_sub w3) [[(0%N, 0%N); (1%N, 0%N)]] (0%N, 0%N) = [(0, 0%N)].
 Proof.
-  exists w3, (w_state w3), [w_p1], w_socket, [(0%N, 0%N)], [(2%N, 0%N)], [[(0%N, 0%N); (1%N, 0%N)]].
-  split; [exact w3_case|]. split; [exact w3_socket_tracks|]. destruct w3_diverges as (A & B). split; [exact A|].
-  intros i [<-|[]]. rewrite B. apply le_n.
+  split; [exact w3_case|]. destruct w3_raw_pairs_collide as (A & B). destruct w3_repaired as (C & D). auto.
 Qed.
-Print Assumptions plug_fails_only_when_ambiguous_plug_tracks_refuted.
 
 (** Non-vacuity: a case satisfying every hypothesis in which the plug succeeds through the semver
     fallback and a second, idle plug is present. *)
 Example c10_nonvacuous :
   plug_case w0 (w_state w0) [w_p1; w_p2] w_socket [(0%N, 0%N)] [(2%N, 0%N)] [[(1%N, 0%N)]; []] /\
-  socket_tracks_distinct w0 [(0%N, 0%N)] /\ plug_tracks_distinct w0 [[(1%N, 0%N)]; []] /\
+  socket_tracks_distinct w0 [(0%N, 0%N)] /\
   snd (plug w0 (w_state w0) [w_p1; w_p2] w_socket) = POk /\
   suppliers (pu_name_text w0) (u_sub w0) [[(1%N, 0%N)]; []] (0%N, 0%N) = [(0, 1%N)].
 Proof.
-  split; [exact w0_case|]. split; [exact w0_socket_tracks|]. split; [exact w0_plug_tracks|]. exact w0_ok.
+  split; [exact w0_case|]. split; [exact w0_socket_tracks|]. exact w0_ok.
 Qed.
